@@ -1,7 +1,7 @@
 (* Witnesses for the known findings of C02: inputs on which two dialects give different answers (under the dialect
    semantics of Model/C01Sql.v: SQLite validated against the linked library, PostgreSQL / MySQL from documentation). *)
 Require Import PonyV.Base.PyBase PonyV.Model.C01Expr PonyV.Model.C01Sql PonyV.Model.C01Translate PonyV.Model.C01Safe
-               PonyV.Model.C01Eqb PonyV.Model.C01Query.
+               PonyV.Model.C01Eqb PonyV.Model.C01Query PonyV.Model.C02Render.
 
 Definition ga := mkattr 1 TInt true.
 Definition gb := mkattr 2 TInt true.
